@@ -1,12 +1,212 @@
 import ZixModel.Model.Avl
-/-! # C06 — ZixTree -/
+import ZixModel.Lemmas.Avl
+/-! # C06 — ZixTree is a balanced sorted (multi)set with stable bidirectional iterators
+
+Property theorems only; helper lemmas live in `ZixModel/Lemmas/Avl.lean`. -/
 namespace Zix.C06
 open Zix.Avl
 
-/-- `free` destroys every element exactly once: the post-order has the same elements as the in-order. -/
-theorem postorder_perm_inorder (t : T) : t.postorder.length = t.inorder.length := by
+/-- Every stored balance factor is the height difference right − left and lies in {−1, 0, 1}. -/
+def Balanced : T → Prop
+  | .nil => True
+  | .node l _ _ b r =>
+    Balanced l ∧ Balanced r ∧ b = (r.height : Int) - (l.height : Int) ∧ -1 ≤ b ∧ b ≤ 1
+
+/-- In-order keys are ascending (non-strictly: duplicates may be present). -/
+def Sorted (t : T) : Prop := (t.inorder.map (·.2)).Pairwise (· ≤ ·)
+/-- In-order keys are strictly ascending (no duplicates). -/
+def StrictSorted (t : T) : Prop := (t.inorder.map (·.2)).Pairwise (· < ·)
+
+/-- Position-wise insertion into the in-order list: after every element with key ≤ e. -/
+def listInsert (e : Int) (id : Nat) : List (Nat × Int) → List (Nat × Int)
+  | [] => [(id, e)]
+  | (i, k) :: rest => if e < k then (id, e) :: (i, k) :: rest else (i, k) :: listInsert e id rest
+
+def fib : Nat → Nat
+  | 0 => 0
+  | 1 => 1
+  | n + 2 => fib n + fib (n + 1)
+
+/-! ## bridges to the copies of these definitions used in `ZixModel/Lemmas/Avl.lean` -/
+
+theorem balanced_iff_bal (t : T) : Balanced t ↔ Bal t := by
   induction t with
+  | nil => exact Iff.rfl
+  | node l i k b r ihl ihr => simp only [Balanced, Bal, ihl, ihr]
+
+theorem listInsert_eq_lins (e : Int) (id : Nat) (l : List (Nat × Int)) :
+    listInsert e id l = lins e id l := by
+  induction l with
   | nil => rfl
-  | node l i k b r ihl ihr => simp [T.postorder, T.inorder, ihl, ihr]
+  | cons p l ih => obtain ⟨i, k⟩ := p; simp only [listInsert, lins, ih]
+
+theorem fib_eq_fibo (n : Nat) : fib n = fibo n := by
+  fun_induction fib n with
+  | case1 => rfl
+  | case2 => rfl
+  | case3 n ih1 ih2 => simp only [fibo, ih1, ih2]
+
+/-! ## insertion -/
+
+/-- Inserting into a balanced sorted tree (duplicates allowed) keeps it balanced, reports height
+growth correctly, and the in-order sequence is the old one with the new element placed after all
+elements with key ≤ e — so equal keys stay in insertion order and every other node keeps its
+identity and key (iterator stability). -/
+theorem insert_dups (t : T) (hb : Balanced t) (hs : Sorted t) (e : Int) (id : Nat) :
+    ∃ t' grew, insertAux true e id t = .done t' grew ∧ Balanced t' ∧ Sorted t' ∧
+      t'.inorder = listInsert e id t.inorder ∧
+      t'.height = t.height + (if grew then 1 else 0) := by
+  rcases insertAux_spec true e id t ((balanced_iff_bal t).1 hb) hs with
+    ⟨hd, _⟩ | ⟨_, t', grew, hres, hB, hI, hH, _⟩
+  · exact absurd hd (by decide)
+  · refine ⟨t', grew, hres, (balanced_iff_bal t').2 hB, ?_, ?_, hH⟩
+    · unfold Sorted; rw [hI]; exact lins_sorted e id _ hs
+    · rw [hI, listInsert_eq_lins]
+
+/-- Without duplicates: an equal key is refused with EXISTS naming the existing element and the
+tree is unchanged; otherwise as above. -/
+theorem insert_nodups (t : T) (hb : Balanced t) (hs : StrictSorted t) (e : Int) (id : Nat) :
+    (∃ i, insertAux false e id t = .exists_ i ∧ (i, e) ∈ t.inorder) ∨
+    (e ∉ t.inorder.map (·.2) ∧ ∃ t' grew, insertAux false e id t = .done t' grew ∧ Balanced t' ∧
+      StrictSorted t' ∧ t'.inorder = listInsert e id t.inorder ∧
+      t'.height = t.height + (if grew then 1 else 0)) := by
+  rcases insertAux_spec false e id t ((balanced_iff_bal t).1 hb) (strict_imp_sorted _ hs) with
+    ⟨_, i, hx, hmem⟩ | ⟨hnot, t', grew, hres, hB, hI, hH, _⟩
+  · exact Or.inl ⟨i, hx, hmem⟩
+  · refine Or.inr ⟨hnot rfl, t', grew, hres, (balanced_iff_bal t').2 hB, ?_, ?_, hH⟩
+    · unfold StrictSorted; rw [hI]; exact lins_strict e id _ hs (hnot rfl)
+    · rw [hI, listInsert_eq_lins]
+
+/-! ## removal -/
+
+/-- Removing the node with a given id from a balanced tree keeps it balanced, reports the height
+loss correctly, and the in-order sequence is the old one without exactly that element: every
+other element keeps its identity, key and relative order. -/
+theorem remove_spec (t : T) (hb : Balanced t) (id : Nat)
+    (hid : (t.inorder.map (·.1)).Nodup) (hin : id ∈ t.inorder.map (·.1)) :
+    ∃ t' shrunk, removeId id t = some (t', shrunk) ∧ Balanced t' ∧
+      t'.inorder = t.inorder.filter (fun p => p.1 ≠ id) ∧
+      t.height = t'.height + (if shrunk then 1 else 0) := by
+  obtain ⟨t', s, hres, hB, hI, hH⟩ := removeId_spec id t ((balanced_iff_bal t).1 hb) hid hin
+  exact ⟨t', s, hres, (balanced_iff_bal t').2 hB, hI, hH⟩
+
+theorem remove_absent (t : T) (id : Nat) (hin : id ∉ t.inorder.map (·.1)) : removeId id t = none :=
+  removeId_none id t hin
+
+/-! ## balance ⇒ logarithmic height; find -/
+
+/-- A balanced tree of height h has at least fib(h+2) − 1 nodes. -/
+theorem avl_height_bound (t : T) (hb : Balanced t) : fib (t.height + 2) ≤ t.size + 1 := by
+  rw [fib_eq_fibo]; exact fibo_height_bound t ((balanced_iff_bal t).1 hb)
+
+theorem size_eq_inorder_length (t : T) : t.size = t.inorder.length :=
+  size_eq_length t
+
+/-- `find` makes at most `height` comparisons and succeeds exactly when the key is stored,
+returning an element with that key. -/
+theorem find_spec (t : T) (hs : Sorted t) (e : Int) :
+    ((find e t 0).2 ≤ t.height) ∧
+    (∀ i, (find e t 0).1 = some i → (i, e) ∈ t.inorder) ∧
+    ((find e t 0).1 = none ↔ e ∉ t.inorder.map (·.2)) := by
+  have := find_spec_aux e t hs 0
+  simpa using this
+
+/-! ## free destroys each element exactly once -/
+
+theorem postorder_perm_inorder (t : T) : t.postorder.Perm t.inorder :=
+  postorder_perm t
+
+/-! ## reachable trees -/
+
+/-- The invariant of a `Tree` value. -/
+structure TreeInv (t : Tree) : Prop where
+  bal    : Balanced t.root
+  sorted : if t.dups then Sorted t.root else StrictSorted t.root
+  size   : t.size = t.root.size
+  fresh  : ∀ p ∈ t.root.inorder, p.1 < t.next
+  nodup  : (t.root.inorder.map (·.1)).Nodup
+
+theorem inv_new (d : Bool) : TreeInv (Tree.new d) := by
+  refine ⟨trivial, ?_, rfl, ?_, ?_⟩
+  · cases d <;> simp [Tree.new, Sorted, StrictSorted, T.inorder]
+  · intro p hp; simp [Tree.new, T.inorder] at hp
+  · simp [Tree.new, T.inorder]
+
+theorem inv_insert (t : Tree) (h : TreeInv t) (e : Int) : TreeInv (t.insert e).1 := by
+  obtain ⟨hbal, hsorted, hsize, hfresh, hnodup⟩ := h
+  have hs : Sorted t.root := by
+    cases hd : t.dups
+    · rw [hd] at hsorted; exact strict_imp_sorted _ hsorted
+    · rw [hd] at hsorted; exact hsorted
+  rcases insertAux_spec t.dups e t.next t.root ((balanced_iff_bal _).1 hbal) hs with
+    ⟨_, i, hx, _⟩ | ⟨hnot, r, grew, hres, hB, hI, _, _⟩
+  · have : (t.insert e).1 = t := by simp only [Tree.insert, hx]
+    rw [this]; exact ⟨hbal, hsorted, hsize, hfresh, hnodup⟩
+  · have : (t.insert e).1 = { t with root := r, size := t.size + 1, next := t.next + 1 } := by
+      simp only [Tree.insert, hres]
+    rw [this]
+    have hperm := lins_perm e t.next t.root.inorder
+    refine ⟨(balanced_iff_bal r).2 hB, ?_, ?_, ?_, ?_⟩
+    · show if t.dups then Sorted r else StrictSorted r
+      cases hd : t.dups
+      · rw [hd] at hsorted
+        simp only [Bool.false_eq_true, ↓reduceIte]
+        unfold StrictSorted; rw [hI]
+        exact lins_strict e _ _ hsorted (hnot hd)
+      · simp only [↓reduceIte]
+        unfold Sorted; rw [hI]
+        exact lins_sorted e _ _ hs
+    · show t.size + 1 = r.size
+      rw [size_eq_length r, hI, hperm.length_eq, hsize, size_eq_length t.root]
+      rfl
+    · show ∀ p ∈ r.inorder, p.1 < t.next + 1
+      intro p hp
+      rw [hI] at hp
+      rcases mem_lins.1 hp with rfl | hp
+      · exact Nat.lt_succ_self _
+      · exact Nat.lt_succ_of_lt (hfresh p hp)
+    · show (r.inorder.map (·.1)).Nodup
+      rw [hI, (hperm.map (·.1)).nodup_iff]
+      simp only [List.map_cons, List.nodup_cons]
+      refine ⟨?_, hnodup⟩
+      intro hm
+      obtain ⟨q, hq, hq1⟩ := List.mem_map.1 hm
+      have := hfresh q hq
+      omega
+
+theorem inv_remove (t : Tree) (h : TreeInv t) (id : Nat) (t' : Tree) (hr : t.remove id = some t') :
+    TreeInv t' := by
+  obtain ⟨hbal, hsorted, hsize, hfresh, hnodup⟩ := h
+  have hin : id ∈ t.root.inorder.map (·.1) := by
+    apply Classical.byContradiction
+    intro hn
+    simp [Tree.remove, removeId_none id t.root hn] at hr
+  obtain ⟨r, s, hres, hB, hI, _⟩ := removeId_spec id t.root ((balanced_iff_bal _).1 hbal) hnodup hin
+  have : t' = { t with root := r, size := t.size - 1 } := by
+    simp only [Tree.remove, hres, Option.some.injEq] at hr
+    exact hr.symm
+  subst this
+  have hsub : r.inorder.Sublist t.root.inorder := by rw [hI]; exact List.filter_sublist
+  refine ⟨(balanced_iff_bal r).2 hB, ?_, ?_, ?_, ?_⟩
+  · show if t.dups then Sorted r else StrictSorted r
+    cases hd : t.dups
+    · rw [hd] at hsorted
+      exact List.Pairwise.sublist (hsub.map _) hsorted
+    · rw [hd] at hsorted
+      exact List.Pairwise.sublist (hsub.map _) hsorted
+  · show t.size - 1 = r.size
+    have := length_filter_ne id t.root.inorder hnodup hin
+    rw [size_eq_length r, hI, hsize, size_eq_length t.root]
+    omega
+  · show ∀ p ∈ r.inorder, p.1 < t.next
+    intro p hp
+    exact hfresh p (hsub.subset hp)
+  · show (r.inorder.map (·.1)).Nodup
+    exact List.Nodup.sublist (hsub.map _) hnodup
+
+/-! ## non-vacuity -/
+example : Balanced (T.node (T.node .nil 1 1 0 .nil) 2 2 0 (T.node .nil 3 3 0 .nil)) := by
+  simp [Balanced, T.height]
+example : ((Tree.new true).insert 5).1.root = T.node .nil 1 5 0 .nil := by decide
 
 end Zix.C06
